@@ -12,15 +12,6 @@
 (***************************************************************************)
 EXTENDS NodeEnv, Json, IOUtils
 
-P == JsonDeserialize(IOEnv.PARAMS)       \* [node, peerOrder, peers, appOrder, apps, maxConn, pinned]
-CNodeCfg == P.node
-CPeerOrder == P.peerOrder
-CPeerCfg == [p \in ToSet(P.peerOrder) |-> P.peers[p]]
-CAppOrder == P.appOrder
-CAppCfg == [a \in ToSet(P.appOrder) |-> [P.apps[a] EXCEPT !.peers = ToSet(@), !.realms = ToSet(@)]]
-CMaxConn == P.maxConn
-CPinned == ToSet(P.pinned)
-
 Traces == JsonDeserialize(IOEnv.TRACES)
 
 MsgEq(mm, jm) == /\ mm.cmd = jm.cmd /\ mm.req = jm.req /\ mm.hbh = jm.hbh /\ mm.e2e = jm.e2e
